@@ -77,7 +77,7 @@ func (h *CapHandler) WithGroup(string) slog.Handler { return h }
 type Offense struct {
 	Script  int // -1 = could not be attributed
 	Stmt    int
-	Where   string // registry | layout
+	Where   string // registry | layout | throttle
 	Layout  string // layout directory name (Where == layout)
 	Detail  string
 	Changes []Change
@@ -96,6 +96,70 @@ type Monitor struct {
 	Offenses []Offense
 	Probes   int
 	Err      error // harness failure while observing
+	// the sandbox throttle (direct driver: scripts run one after another, so at a
+	// statement boundary and after a script nothing holds a slot)
+	throttle     *pqueue.Queue[struct{}]
+	throttleMax  int
+	throttleFree int // slots known to be free at the last drain test
+}
+
+// Drain is the drain test of a throttle that nothing uses any more: exactly max
+// TryAcquire calls must succeed and the next one must be refused. It returns how
+// many succeeded (at most max+1); everything it took is released again.
+func Drain(q *pqueue.Queue[struct{}], max int) int {
+	if q == nil {
+		return max
+	}
+	var rels []func()
+	for i := 0; i < max+1; i++ {
+		rel, err := q.TryAcquire(context.Background(), struct{}{})
+		if err != nil || rel == nil {
+			break
+		}
+		rels = append(rels, rel)
+	}
+	for _, r := range rels {
+		r()
+	}
+	return len(rels)
+}
+
+// lookAtThrottle runs the drain test (direct driver only) and attributes a
+// slot that went missing since the previous test to the statement that was
+// executing. Lock held.
+func (mo *Monitor) lookAtThrottle() {
+	if mo.throttle == nil {
+		return
+	}
+	free := Drain(mo.throttle, mo.throttleMax)
+	if free == mo.throttleFree {
+		return
+	}
+	si, k := mo.last, -1
+	if si >= 0 && si < len(mo.cur) {
+		k = mo.cur[si]
+	}
+	what := "leaked"
+	if free > mo.throttleFree {
+		what = "appeared"
+	}
+	mo.Offenses = append(mo.Offenses, Offense{Script: si, Stmt: k, Where: "throttle",
+		Detail: fmt.Sprintf("%s: drain test on the idle throttle (limit %d): %d TryAcquire succeeded, %d at the previous statement boundary", what, mo.throttleMax, free, mo.throttleFree)})
+	mo.throttleFree = free
+}
+
+// SetThrottle hands the direct driver's throttle to the monitor.
+func (mo *Monitor) SetThrottle(q *pqueue.Queue[struct{}], max int) {
+	mo.mu.Lock()
+	mo.throttle, mo.throttleMax, mo.throttleFree = q, max, max
+	mo.mu.Unlock()
+}
+
+// ScriptDone is called by the direct driver after a script returned.
+func (mo *Monitor) ScriptDone() {
+	mo.mu.Lock()
+	mo.lookAtThrottle()
+	mo.mu.Unlock()
 }
 
 var probeRE = regexp.MustCompile(`^/v2/s(\d+)/k(\d+)/tags/list$`)
@@ -148,6 +212,7 @@ func (mo *Monitor) onArrive(e *rm.Entry) {
 			k, _ := strconv.Atoi(m[2])
 			mo.Probes++
 			mo.lookAtLayouts()
+			mo.lookAtThrottle()
 			if si >= 0 && si < len(mo.cur) {
 				mo.cur[si] = k
 				mo.last = si
@@ -253,6 +318,32 @@ type ScriptObs struct {
 	Panic  string // a Go panic left RunScript (direct mode)
 }
 
+// TimedOut tells whether a context deadline fired in the script.
+func (so ScriptObs) TimedOut() bool {
+	if strings.Contains(so.Err, "context deadline exceeded") {
+		return true
+	}
+	for _, m := range so.Msgs {
+		if strings.Contains(m, "context deadline exceeded") {
+			return true
+		}
+	}
+	return false
+}
+
+// BlockedOnThrottle tells whether a binding gave up waiting for a throttle slot.
+func (so ScriptObs) BlockedOnThrottle() bool {
+	if strings.Contains(so.Err, "Failed to acquire throttle") {
+		return true
+	}
+	for _, m := range so.Msgs {
+		if strings.Contains(m, "Failed to acquire throttle") {
+			return true
+		}
+	}
+	return false
+}
+
 // Obs is the observation of one run.
 type Obs struct {
 	Scripts  []ScriptObs
@@ -260,6 +351,8 @@ type Obs struct {
 	Probes   int
 	CmdErr   string // cobra: error returned by the command
 	CmdPanic string // cobra: a Go panic left the command
+	// cobra: drain test on the command's throttle after it returned (Max 0 = not run)
+	ThrottleFree, ThrottleMax int
 }
 
 // BuildScriptObs distributes log records over the scripts of the case.
@@ -299,6 +392,8 @@ type CobraOut struct {
 	Recs   []LogRec
 	CmdErr error
 	Panic  string
+	// drain test on the command's own throttle after it returned (-1 = not run)
+	ThrottleFree, ThrottleMax int
 }
 
 // ErrWatchdog marks a wall-clock watchdog expiry (inconclusive, never a violation).
@@ -318,6 +413,8 @@ func Run(w *World, c Case, dry bool, cobra CobraFn) (*Obs, error) {
 		so       []ScriptObs
 		cmdErr   string
 		cmdPanic string
+		tFree    int
+		tMax     int
 		err      error
 	}
 	done := make(chan res, 1)
@@ -342,11 +439,12 @@ func Run(w *World, c Case, dry bool, cobra CobraFn) (*Obs, error) {
 			}
 			r.so = BuildScriptObs(c, co.Recs, true)
 			r.cmdPanic = co.Panic
+			r.tFree, r.tMax = co.ThrottleFree, co.ThrottleMax
 			if co.CmdErr != nil {
 				r.cmdErr = co.CmdErr.Error()
 			}
 		default:
-			r.so = runDirect(w, c, dry)
+			r.so = runDirect(w, c, dry, mo)
 		}
 	}()
 	var r res
@@ -363,13 +461,14 @@ func Run(w *World, c Case, dry bool, cobra CobraFn) (*Obs, error) {
 		return nil, mo.Err
 	}
 	obs.Scripts, obs.CmdErr, obs.CmdPanic = r.so, r.cmdErr, r.cmdPanic
+	obs.ThrottleFree, obs.ThrottleMax = r.tFree, r.tMax
 	obs.Offenses, obs.Probes = mo.Offenses, mo.Probes
 	return obs, nil
 }
 
 // runDirect is the sandbox driver: what cmd/regbot's process() does for each
 // script, in order, with one shared client and throttle.
-func runDirect(w *World, c Case, dry bool) []ScriptObs {
+func runDirect(w *World, c Case, dry bool, mo *Monitor) []ScriptObs {
 	rc := rcutil.New(w.Model, rcutil.Conf{})
 	lvl := slog.LevelInfo
 	if c.Verbosity == "debug" {
@@ -381,7 +480,8 @@ func runDirect(w *World, c Case, dry bool) []ScriptObs {
 	if conc <= 0 {
 		conc = 1
 	}
-	throttle := pqueue.New(pqueue.Opts[struct{}]{Max: conc})
+	throttle := pqueue.New(pqueue.Opts[struct{}]{Max: conc}) // as loadConf builds it
+	mo.SetThrottle(throttle, conc)
 	errs := make([]error, len(c.Scripts))
 	panics := make([]string, len(c.Scripts))
 	for i, s := range c.Scripts {
@@ -411,6 +511,7 @@ func runDirect(w *World, c Case, dry bool) []ScriptObs {
 			defer sb.Close()
 			errs[i] = sb.RunScript(c.Render(i, w.Root))
 		}()
+		mo.ScriptDone()
 	}
 	so := BuildScriptObs(c, get(), false)
 	for i, e := range errs {
